@@ -114,10 +114,12 @@ def gen_case(rng, pid, tier):
         ops.append(['idg', 1, rng.randint(0, 3)])
 
     made = []
+    few_affs = rng.random() < 0.25
 
     def newapp():
         napp[0] += 1
-        aff = rng.randrange(4)
+        # (in a quarter of the cases most instances share ONE affinity, so that nodes hold several of a kind)
+        aff = 0 if (few_affs and rng.random() < 0.8) else rng.randrange(4)
         a = ['app', napp[0], rng.choice([0, 1, 1, 5, 10, 50, 100]),
              [rng.choice([1, 2, 3, 5, 8]) for _ in range(3)], aff, aff_limits[aff],
              rng.choice([0, 30, 30, None]), rng.choice([0, 0, 0, 40, 100]),
@@ -189,7 +191,7 @@ def gen_case(rng, pid, tier):
         elif r < 0.77 and len(alive_srv) > 1:
             s = rng.choice(alive_srv)
             alive_srv.remove(s)
-            ops.append(['rmserver', s] if rng.random() < 0.8 else ['detach', s])
+            ops.append(['rmserver', s] if rng.random() < 0.55 else ['detach', s])
         elif r < 0.80:
             nsrv_next[0] += 1
             alive_srv.append(nsrv_next[0])
@@ -525,9 +527,10 @@ def monitors(world, pid, snap, queues, run, hist_tags):
             for a in _apps_under(world, node):
                 byaff[a.affinity.name].append(a)
             for k, l in byaff.items():
-                lim = min(dict(a.affinity.limits).get(node.level, float('inf')) for a in l)
+                lvl = getattr(world, 'level_of', lambda n_: n_.level)(node)
+                lim = min(dict(a.affinity.limits).get(lvl, float('inf')) for a in l)
                 if len(l) > lim:
-                    H('limit-exceeded', 'cycle', (node.name, node.level, k, len(l), lim))
+                    H('limit-exceeded', 'cycle', (node.name, lvl, k, len(l), lim))
             return cnt
         walk(cell)
     elif pid == 'C05':
